@@ -471,9 +471,44 @@ func c12Keyset(c *Ctx) {
 			}
 			stc, _ := guard.CallOf(args[3])
 			okSt := stc != nil && strings.HasSuffix(guard.CalleeName(&stc.Call), "keyset.keyStatusFromProto")
-			okEntry = okID && okPrim && okSt
+			// the key object is what ParseKey makes of the key's serialization, whatever its status
+			var fromParse func(v ssa.Value, depth int) bool
+			fromParse = func(v ssa.Value, depth int) bool {
+				if depth > 3 {
+					return false
+				}
+				v = resolveParam(p, v)
+				if phi, isPhi := guard.Strip(v).(*ssa.Phi); isPhi {
+					for _, e := range phi.Edges {
+						if !fromParse(e, depth+1) {
+							return false
+						}
+					}
+					return len(phi.Edges) > 0
+				}
+				pc, pi := guard.CallOf(v)
+				if pc == nil || pi != 0 {
+					return false
+				}
+				if strings.HasSuffix(guard.CalleeName(&pc.Call), "internal/protoserialization.ParseKey") {
+					return true
+				}
+				h := pc.Call.StaticCallee()
+				if h == nil || h.Blocks == nil || core.Rel(core.PkgOf(h)) != "keyset" {
+					return false
+				}
+				rets := guard.SuccessReturns(h)
+				for _, ret := range rets {
+					if !fromParse(ret.Results[0], depth+1) {
+						return false
+					}
+				}
+				return len(rets) > 0
+			}
+			okKey := fromParse(args[0], 0)
+			okEntry = okID && okPrim && okSt && okKey
 		}
-		r.Check(okEntry, "C12.keyset", "C12.keyset/keysetToEntries/entry fields", p.FuncPos(k2e), "entry ID/primary/status are not taken from the proto key (ID, ID==PrimaryKeyId, status table)", "newUnmonitoredEntry(key, id==primary, id, status)")
+		r.Check(okEntry, "C12.keyset", "C12.keyset/keysetToEntries/entry fields", p.FuncPos(k2e), "entry key/ID/primary/status are not taken from the proto key (ParseKey of its serialization on every path, ID, ID==PrimaryKeyId, status table)", "newUnmonitoredEntry(ParseKey(serialization), id==primary, id, status)")
 	}
 	// Public(): same entry's flags
 	if pub != nil {
@@ -643,8 +678,72 @@ func c12IDReq(c *Ctx) {
 			r.Check(good, "C12.idreq", key, p.FuncPos(f), "the serializer does not pass the key's IDRequirement() to NewKeySerialization", "NewKeySerialization(keyData, prefix, key.IDRequirement())")
 		}
 	}
-	r.Counts["key_parsers"], r.Counts["key_serializers"] = nP, nS
-	r.Min("C12.idreq", 60)
+	// key creators: func(key.Parameters, idRequirement uint32) (key.Key, error) — the key they
+	// return is built by a constructor; if that constructor takes a key ID / ID requirement,
+	// it is given the creator's own idRequirement parameter
+	nC := 0
+	for _, f := range p.SortedFuncs(core.Product) {
+		sig := f.Signature
+		if sig.Recv() != nil || f.Parent() != nil || f.Synthetic != "" || len(f.Blocks) == 0 || sig.Params().Len() != 2 || sig.Results().Len() != 2 {
+			continue
+		}
+		if core.TypeID(sig.Params().At(0).Type()) != "key.Parameters" || core.TypeID(sig.Results().At(0).Type()) != "key.Key" || core.Rel(core.PkgOf(f)) == "internal/keygenregistry" {
+			continue
+		}
+		if bt, ok := sig.Params().At(1).Type().Underlying().(*types.Basic); !ok || bt.Kind() != types.Uint32 {
+			continue
+		}
+		nC++
+		key := "C12.idreq/" + core.FuncID(f)
+		bad, how := "", ""
+		rets := guard.SuccessReturns(f)
+		var visit func(v ssa.Value, depth int)
+		visit = func(v ssa.Value, depth int) {
+			v = guard.Strip(v)
+			if mi, isMI := v.(*ssa.MakeInterface); isMI {
+				v = guard.Strip(mi.X)
+			}
+			if phi, isPhi := v.(*ssa.Phi); isPhi && depth < 3 {
+				for _, e := range phi.Edges {
+					if !guard.IsNilConst(e) {
+						visit(e, depth+1)
+					}
+				}
+				return
+			}
+			cc, _ := guard.CallOf(v)
+			if cc == nil || cc.Call.StaticCallee() == nil || core.FuncClass(cc.Call.StaticCallee()) != core.Product {
+				bad = "the returned key is not the result of a constructor of the module (" + valName(v) + ")"
+				return
+			}
+			g := cc.Call.StaticCallee()
+			idParams := 0
+			for i, prm := range g.Params {
+				bt, isB := prm.Type().Underlying().(*types.Basic)
+				if !isB || bt.Kind() != types.Uint32 || !strings.Contains(strings.ToLower(prm.Name()), "id") || i >= len(cc.Call.Args) {
+					continue
+				}
+				idParams++
+				if guard.Strip(cc.Call.Args[i]) != ssa.Value(f.Params[1]) {
+					bad = fmt.Sprintf("%s is given %s as %s instead of the creator's idRequirement parameter: generated keys would not carry the ID the keyset assigns", g.Name(), valName(cc.Call.Args[i]), prm.Name())
+				}
+			}
+			if idParams == 0 {
+				how = g.Name() + " takes no ID requirement (prefix-less key type)"
+			} else if how == "" {
+				how = g.Name() + "(…, idRequirement parameter, …)"
+			}
+		}
+		for _, ret := range rets {
+			visit(ret.Results[0], 0)
+		}
+		if len(rets) == 0 {
+			bad = "no success return"
+		}
+		r.Check(bad == "", "C12.idreq", key, p.FuncPos(f), bad, how)
+	}
+	r.Counts["key_parsers"], r.Counts["key_serializers"], r.Counts["key_creators"] = nP, nS, nC
+	r.Min("C12.idreq", 80)
 }
 
 // ---------------------------------------------------------------- typeurl
